@@ -27,5 +27,6 @@ def tasks(tier, seed=0):
     out += [task("vf.contracts.replfront", "ob_replacement", f"replacement.{m}/equiv+inv", ["C14", "C13"], method=m, tier=tier) for m in ("_copy", "_blank_copy")]
     out += [task("vf.contracts.hybrid", "ob_hybrid", f"hybrid.{m}/dispatch+inv", ["C14", "C13"], method=m, tier=tier) for m in ("branch", "blank_copy")]
     # a method added to a caching layer (a downsize() that empties a set a branch still shares ...) is outside every proved invariant
+    out.append(task("vf.contracts.mixins", "ob_modelcache_copy", "mixin.ModelCacheMixin._copy/own-containers", ["C14", "C26", "C11"], tier=tier))
     out.append(task("vf.contracts.layers", "ob_method_coverage", "layer.methods/every-mixin-method-accounted-for", ["C11", "C14"]))
     return out + _rtc.rtc_tasks("C14", tier, seed)
